@@ -168,6 +168,12 @@ class NaiveForecaster(_OptionalForecastingHorizonMixin, _BaseWindowForecaster):
                 return np.repeat(last_window[-1], len(fh))
 
             else:
+                # fewer than sp observations (in-sample forecasts near the start
+                # of the series): pad at the front so that positions stay aligned
+                # with the end of the window; seasons not seen yet forecast nan
+                if len(last_window) < self.sp_:
+                    pad = np.full(self.sp_ - len(last_window), np.nan)
+                    last_window = np.hstack([pad, last_window])
                 # we need to replicate the last window if max(fh) is larger
                 # than sp,so that we still make forecasts by repeating the
                 # last value for that season, assume fh is sorted, i.e. max(
